@@ -56,6 +56,11 @@ def match_case(draw, ctx, big=False):
     k = len(fixed) - 1
     case = dict(x=x, y=y, mode=mode, fixed=fixed, tr=tr, rr=rr, alpha=alpha, xkind=xd["kind"], ykind=yd["kind"],
                 as_list=draw(st.integers(0, 5)) == 0, facade=draw(st.integers(0, 3)) == 0)
+    # integer-valued data may arrive with an integer dtype (counts): "every finite y"
+    if all(float(v).is_integer() and abs(v) < 2 ** 40 for v in y):
+        case["yint"] = draw(st.booleans())
+    if all(float(v).is_integer() and abs(v) < 2 ** 40 for v in x):
+        case["xint"] = draw(st.booleans())
     offgrid = draw(st.booleans())
     case["offgrid"] = offgrid
     fx = [x[i] for i in fixed]
@@ -205,6 +210,10 @@ def classes(case):
         cls.append("extra-ref-points")
     if len(case["x"]) > 200:
         cls.append("large")
+    if case.get("yint"):
+        cls.append("int-dtype-y")
+    if case.get("xint"):
+        cls.append("int-dtype-x")
     return cls
 
 
